@@ -72,12 +72,13 @@ def after_done_class(trace):
 
 
 def stranded_channels(toks):
-    """export mode: channels whose FutureWriter was alive at EVENT_CANCEL: after `X` the default value is
-    made (`def<c>:<id>`), its write blocks (`fwrite<w>:BLOCKED`) and the writable end is never dropped
-    (no `fdw<w>`).  Returns {channel: (writable handle, id of the default value)}"""
-    if "X" not in toks:
+    """The CAUSE of the known finding, read off an export trace: the host cancels the task (`X`, EVENT_CANCEL) and
+    the task exits (`cb=exit`) while the default write of a FutureWriter is unfinished — the default value was
+    made (`def<c>:<id>`: by dropping a live FutureWriter, before the cancel or by the cancel dropping the body),
+    its write blocked (`fwrite<w>:BLOCKED` after the `def`) and the writable end was never dropped afterwards (no
+    `fdw<w>`).  Returns {channel: (writable handle, id of the default value)}"""
+    if "X" not in toks or "cb=exit" not in toks[toks.index("X"):]:
         return {}
-    x = toks.index("X")
     handle, opening = {}, None
     for t in toks:
         m = re.fullmatch(r"open(\d+)", t)
@@ -86,8 +87,8 @@ def stranded_channels(toks):
         if m and opening is not None:
             handle[opening] = int(m.group(1)); opening = None
     out = {}
-    for i in range(x + 1, len(toks)):
-        m = re.fullmatch(r"def(\d+):(\d+)", toks[i])
+    for i, t in enumerate(toks):
+        m = re.fullmatch(r"def(\d+):(\d+)", t)
         if not m or int(m.group(1)) not in handle:
             continue
         c, w = int(m.group(1)), handle[int(m.group(1))]
@@ -97,36 +98,47 @@ def stranded_channels(toks):
     return out
 
 
-STRANDED_CLAUSES = ("return-values-lost-in-slab", "slab-never-freed", "writer-stranded")
+def before_end_audits(toks):
+    """the trace without the end-of-run audit tokens (`!…` anomalies emitted after the task is gone, `end:`)"""
+    n = len(toks)
+    while n and (toks[n - 1].startswith("!") or toks[n - 1].startswith("end:")):
+        n -= 1
+    return toks[:n]
 
 
-def stranded_split(script, toks, fails):
-    """Split the failing clauses of an export script into those that ARE the known finding
-    `future-default-write-stranded-on-task-cancel` — matched on clause AND position: an end-of-trace
-    clause of a stranded channel (`@c<k>`), the dangling registration of ITS writable handle (`@h<w>`), the
-    ledger entry of ITS default value still lowered, host leftovers with exactly one end per stranded
-    channel, and the (unlocalisable) byte leak — and the rest, which is judged like any other failure."""
+def stranded_split(script, toks, fails, run_level):
+    """Split the failing clauses of an export script into those that belong to the known finding
+    `future-default-write-stranded-on-task-cancel` and the rest.  Keyed on the CAUSE (`stranded_channels`), not on a
+    list of symptom names: given the cause, EVERY end-of-trace symptom (a clause that the same trace, judged as a
+    prefix up to the task's exit without the end-of-trace rules, does NOT produce: `run_level` = the failures of that
+    prefix) that is about a stranded channel (`@c<k>`), about its writable handle (`@h<w>`), a ledger entry of that
+    channel, the host's leftovers when they are exactly one end per stranded channel in the task's one set, or the
+    byte leak, belongs to the finding.  Run-level failures, symptoms positioned at OTHER channels / handles, other
+    ends left over in the host, allocator errors and anomalies of unknown position stay ordinary failures."""
     if not script.startswith("export"):
         return [], fails
     k = stranded_channels(toks)
     if not k:
         return [], fails
+    handles = {"h%d" % w for w, _ in k.values()}
     mine, rest = [], []
     for f in fails:
         cls, _, where = f.rpartition("@")
         ok = False
-        if cls in STRANDED_CLAUSES and where.startswith("c") and where[1:].isdigit() and int(where[1:]) in k:
-            ok = True
-        elif cls == "waitable:dangling-registration" and where in {"h%d" % w for w, _ in k.values()}:
-            ok = True
+        if f in run_level:
+            ok = False
+        elif where.startswith("c") and where[1:].isdigit():
+            ok = int(where[1:]) in k
+        elif where.startswith("h") and where[1:].isdigit():
+            ok = where in handles
         elif cls.startswith("anomaly:!item-ledger"):
-            m = re.fullmatch(r"anomaly:!item-ledger(\d+):(\d+):lowered:0", cls)
-            ok = bool(m) and k.get(int(m.group(1)), (None, None))[1] == int(m.group(2))
+            m = re.match(r"anomaly:!item-ledger(\d+):", cls)
+            ok = bool(m) and int(m.group(1)) in k
         elif cls.startswith("anomaly:!host-leftovers"):
             m = re.fullmatch(r"anomaly:!host-leftovers:sets=(\d+)/ends=(\d+)/ctx=0", cls)
-            ok = bool(m) and int(m.group(2)) == len(k) and 1 <= int(m.group(1)) <= len(k)
+            ok = bool(m) and int(m.group(2)) == len(k) and int(m.group(1)) == 1
         elif re.fullmatch(r"leak:\d+", cls):
-            ok = True          # bytes held by the unfinished write(s); cannot be attributed more finely
+            ok = True          # bytes held by the unfinished write(s) and the task state; cannot be attributed more finely
         (mine if ok else rest).append(f)
     return mine, rest
 
@@ -204,6 +216,16 @@ def run_chan(c, pid, want, only, what_map):
         pout = run_lines([model], [reqs[i] + "\t" + " ".join(itrace[i].split(" ")[:cuts[i]] + ["abort", "end:?:0"]) for i in order],
                          timeout=900) if order else []
         pverdict = {i: (p.split("\t")[1] if "\t" in p else "spec=missing") for i, p in zip(order, pout)}
+        # scripts that show the cause of the stranded-default-write finding: the same trace judged up to the task's
+        # exit WITHOUT the end-of-trace rules tells run-level failures from end-of-trace symptoms
+        strand = [idx for idx, r, o, m, verdict in failing
+                  if idx not in cuts and r.startswith("export") and stranded_channels(o.split(" "))]
+        sout = run_lines([model], [reqs[i] + "\t" + " ".join(before_end_audits(itrace[i].split(" ")) + ["abort", "end:?:0"])
+                                   for i in strand], timeout=900) if strand else []
+        runlevel = {}
+        for i, p in zip(strand, sout):
+            v = p.split("\t")[1] if "\t" in p else "spec=missing"
+            runlevel[i] = set() if v == "spec=ok" else set(v.split(":", 1)[1].split(",")) if v.startswith("spec=fail:") else {"missing@-"}
         for idx, r, o, m, verdict in failing:
             toks = o.split(" ")
             pmsg = (iout[idx].split("\t") + [""])[1]
@@ -228,11 +250,12 @@ def run_chan(c, pid, want, only, what_map):
                     c.spec_violation("chan-panic", "the runtime panics: " + pmsg[:200], wit)
             fails = [] if verdict == "spec=ok" else verdict.split(":", 1)[1].split(",") if verdict.startswith("spec=fail:") else ["missing@-"]
             fails = [f for f in fails if f not in ("anomaly:@panic@-",)]
-            mine, rest = stranded_split(r, judged, fails)
+            mine, rest = stranded_split(r, judged, fails, runlevel.get(idx, set())) if idx in runlevel else ([], fails)
             if mine:
                 c.spec_violation("future-default-write-stranded-on-task-cancel",
-                                 "export task cancelled (EVENT_CANCEL) while a FutureWriter is alive: its default write is started "
-                                 "in the background and never finished (slab, writable end, waitable set and task state leak)",
+                                 "export task cancelled (EVENT_CANCEL) while a FutureWriter or its background default write is alive: "
+                                 "the task exits at once and the default write is never finished (slab, writable end, waitable set "
+                                 "and task state leak)",
                                  dict(wit, clauses_attributed=mine))
             for k in sorted({re.sub(r"[^a-z!-]+", "-", f.split("@")[0]).strip("-")[:70] for f in rest}):
                 c.spec_violation("chan-" + k, what_map.get(k.split("-")[0], "the real trace violates the spec side (" + k + ")"), wit)
